@@ -59,6 +59,7 @@ pub struct Violation {
 
 #[derive(Clone, Debug, Default)]
 pub struct Stats {
+    pub handles_dropped_mid_transaction: u64,
     pub pinned_histories_cut_short_by_the_growth_guard: u64,
     pub pinned_readers_opened: u64,
     pub commits_with_a_pinned_reader: u64,
@@ -99,6 +100,7 @@ impl Stats {
         self.pinned_readers_opened += o.pinned_readers_opened;
         self.pinned_histories_cut_short_by_the_growth_guard += o.pinned_histories_cut_short_by_the_growth_guard;
         self.commits_with_a_pinned_reader += o.commits_with_a_pinned_reader;
+        self.handles_dropped_mid_transaction += o.handles_dropped_mid_transaction;
         self.ops += o.ops;
         self.commits += o.commits;
         self.rollbacks += o.rollbacks;
@@ -995,6 +997,14 @@ fn exec_tx_inner(run: &mut Run, db: &DB, path: &Path, script: &TxScript, committ
                         continue;
                     }
                 }
+                if let Op::DropH { h } = op {
+                    if *h < handles.len() && *h < hs.v.len() && hs.v[*h].state == HState::Live {
+                        handles[*h] = None;
+                        hs.v[*h].state = HState::Orphan; // never used again
+                        run.out.stats.handles_dropped_mid_transaction += 1;
+                    }
+                    continue;
+                }
                 if let Op::Skip { slot } = op {
                     if *slot {
                         handles.push(None);
@@ -1322,7 +1332,7 @@ fn exec_tx_inner(run: &mut Run, db: &DB, path: &Path, script: &TxScript, committ
                             );
                         }
                     }
-                    Op::Skip { .. } => {}
+                    Op::Skip { .. } | Op::DropH { .. } => {}
                     Op::Misuse { h: mh, what } => {
                         if *mh >= hs.v.len() || hs.v[*mh].state != HState::Deleted {
                             continue;
